@@ -158,6 +158,9 @@ func NewChunkStorage[T Tx](
 		verifier:           verifier,
 		ruleFactory:        ruleFactory,
 	}
+	// restore the verifier's minimum, which is updated alongside the persisted
+	// min slot in SetMin
+	verifier.SetMin(minSlot)
 	return storage, storage.init()
 }
 
@@ -281,6 +284,11 @@ func (s *ChunkStorage[T]) SetMin(updatedMin int64, saveChunks []ids.ID) error {
 		}
 		if err := batch.Put(acceptedChunkKey(chunk.Chunk.Expiry, chunk.Chunk.id), chunk.Chunk.bytes); err != nil {
 			return fmt.Errorf("failed to save chunk %s: %w", saveChunkID, err)
+		}
+		// the chunk is no longer pending, remove its pending entry so that it is
+		// not restored as a pending chunk on restart
+		if err := batch.Delete(pendingChunkKey(chunk.Chunk.Expiry, chunk.Chunk.id)); err != nil {
+			return fmt.Errorf("failed to delete pending chunk %s: %w", saveChunkID, err)
 		}
 		s.discardPendingChunk(saveChunkID)
 	}
